@@ -113,7 +113,8 @@ def run_check(pid, tier, seed, replay, t0):
     for k in res.get('known', []):
         known_lines.append('KNOWN-FINDING: property=%s %s' % (pid, k))
     n = 0
-    for v in res.get('violations', []):
+    # violations that come with a failing input first
+    for v in sorted(res.get('violations', []), key=lambda v: not v.get('found_input', False)):
         n += 1
         path = write_replay(pid, seed, n, v['replay'])
         violations.append((path, v.get('found_input', False), v.get('what', '')))
